@@ -120,6 +120,9 @@ func c18Configs(tier string) []c18Cfg {
 		// every row (or window) fires: the window output buffer (2) fills behind the gated sink while Stop runs
 		out = append(out, c18Cfg{Kind: k, Strategy: "block", Threads: "PS", Sink: "gate", Rows: 5})
 	}
+	// a sink that calls EmitSync on its own instance (refused or served, never parked until Stop's grace timer fires)
+	out = append(out, c18Cfg{Kind: "direct", Strategy: "drop", Threads: "PS", Sink: "reenter-emitsync"}, c18Cfg{Kind: "analytic", Strategy: "block", Threads: "PS", Sink: "reenter-emitsync"},
+		c18Cfg{Kind: "direct", Strategy: "expand", Threads: "PSG", Sink: "reenter-emitsync"})
 	// a row whose evaluation panics inside a user function: later rows must still be processed and delivered, Stop
 	// must return without its grace timer, nothing escapes to the caller of Emit / EmitSync
 	for _, k := range []string{"direct", "direct-where", "analytic", "cep", "counting", "global"} {
@@ -196,6 +199,10 @@ func c18Run(cfg c18Cfg) explore.RunFunc {
 				case "reenter-addsink":
 					if o.sinkCalls == 1 {
 						s.AddSink(func([]map[string]any) {})
+					}
+				case "reenter-emitsync":
+					if o.sinkCalls == 1 {
+						s.EmitSync(Row{"id": 55, "k": "a", "v": 5, "ts": 1200}) // forwards a derived row through the same instance
 					}
 				case "block":
 					sched.Recv(blockCh)
